@@ -129,6 +129,24 @@ class Ctx:
     def concretize_bool(self, e) -> bool:
         return self.branch(e)
 
+    def choose(self, n: int) -> int:
+        """solver-free decision among n alternatives that are all feasible by construction
+        (e.g. an unconstrained fresh draw from a finite range); returns the index taken"""
+        if n <= 0:
+            raise PathAbort("empty choice")
+        if n == 1:
+            return 0
+        i = len(self.trace)
+        if i < len(self.schedule):
+            d = self.schedule[i]
+            if d[0] != "c" or d[2] != n:
+                raise Inconclusive("non-deterministic re-execution (expected choice decision)")
+            k = d[1]
+        else:
+            k = 0
+        self.trace.append(("c", k, n))
+        return k
+
 
 def cur() -> Ctx:
     c = Ctx.cur
@@ -583,6 +601,12 @@ def _model_to_py(m, inputs):
     return out
 
 
+def _has_alternative(d) -> bool:
+    if d[0] == "c":
+        return d[1] + 1 < d[2]
+    return bool(d[2] and d[1])
+
+
 def explore(run, *, max_paths: int = 200_000, max_seconds: float = 3600.0, label: str = "",
             stop_on_cex: bool = True, max_cex: int = 3, sample_every: int = 0) -> ExploreResult:
     """DFS over the decision tree of `run(ctx)`.
@@ -636,12 +660,15 @@ def explore(run, *, max_paths: int = 200_000, max_seconds: float = 3600.0, label
             break
         # backtrack
         tr = ctx.trace
-        while tr and not (tr[-1][2] and tr[-1][1]):
+        while tr and not _has_alternative(tr[-1]):
             tr.pop()
         if not tr:
             break
         last = tr.pop()
-        schedule = tr + [(last[0], False, False) + tuple(last[3:])]
+        if last[0] == "c":
+            schedule = tr + [("c", last[1] + 1, last[2])]
+        else:
+            schedule = tr + [(last[0], False, False) + tuple(last[3:])]
         if res.paths + res.aborted + res.truncated >= max_paths:
             raise Inconclusive(f"{label}: path budget {max_paths} exceeded")
         if time.perf_counter() - t0 > max_seconds:
